@@ -232,9 +232,65 @@ def to_scaffold_orientation(repo: Repo, L: Ledger, rule: str):
                 return 0
             return None
 
+        # in-place reversal of a local scaffold: `X.rows.reverse()` (or X.rows = X.rows[::-1]) together with the loop
+        # `for i, f in X.idx_fragments(): X.rows[i] = f.reverse()` -- the body of Scaffold.reverse applied to X itself
+        inplace = {}
+
+        def _flip_loop(fnode):
+            if not (isinstance(fnode, ast.For) and isinstance(fnode.iter, ast.Call) and isinstance(fnode.iter.func, ast.Attribute) and fnode.iter.func.attr == "idx_fragments"):
+                return None
+            x = fnode.iter.func.value
+            if not (isinstance(x, ast.Name) and isinstance(fnode.target, ast.Tuple) and len(fnode.target.elts) == 2 and all(isinstance(t, ast.Name) for t in fnode.target.elts)):
+                return None
+            i_, f_ = (t.id for t in fnode.target.elts)
+            body = [b for b in fnode.body if not is_noise(b)]
+            if len(body) == 1 and not fnode.orelse and norm(body[0]) == f"{x.id}.rows[{i_}] = {f_}.reverse()":
+                return x.id
+            return None
+
         for e in res[0]["path"].events:
             if e.kind == "stmt" and isinstance(e.node, ast.Assign) and len(e.node.targets) == 1 and isinstance(e.node.targets[0], ast.Name):
                 revs[e.node.targets[0].id] = rev_of(e.node.value)
+            elif e.kind == "stmt" and isinstance(e.node, ast.Expr) and isinstance(e.node.value, ast.Call) and (dotted(e.node.value.func) or "").endswith(".rows.reverse") and not e.node.value.args:
+                x = dotted(e.node.value.func)[: -len(".rows.reverse")]
+                inplace.setdefault(x, [0, 0])[0] += 1
+            elif e.kind == "stmt" and isinstance(e.node, ast.Assign) and len(e.node.targets) == 1 and (dotted(e.node.targets[0]) or "").endswith(".rows") and norm(e.node.value) in (f"{dotted(e.node.targets[0])}[::-1]", f"list(reversed({dotted(e.node.targets[0])}))"):
+                inplace.setdefault(dotted(e.node.targets[0])[: -len(".rows")], [0, 0])[0] += 1
+            elif e.kind == "iter" and e.val and e.val[0] == "done":
+                x = _flip_loop(e.node)
+                if x is not None:
+                    inplace.setdefault(x, [0, 0])[1] += 1
+        # any other mutation of a local scaffold on this path is outside what is modelled: no verdict rather than "not reversed"
+        def _mutates(stmt, x):
+            for n in [stmt, *ast.walk(stmt)]:
+                if isinstance(n, ast.Assign | ast.AugAssign | ast.AnnAssign):
+                    for t in n.targets if isinstance(n, ast.Assign) else [n.target]:
+                        for tt in ast.walk(t):
+                            if isinstance(tt, ast.Subscript | ast.Attribute) and (dotted(tt.value) or "").split(".")[0] == x:
+                                return True
+                if isinstance(n, ast.Call) and isinstance(n.func, ast.Attribute) and (dotted(n.func.value) or "").split(".")[0] == x and (dotted(n.func.value) or "") != x:
+                    if n.func.attr in ("append", "extend", "insert", "pop", "remove", "reverse", "sort", "clear", "__setitem__", "__delitem__"):
+                        return True
+                if isinstance(n, ast.Delete) and any((dotted(getattr(t, "value", t)) or "").split(".")[0] == x for t in n.targets):
+                    return True
+            return False
+
+        for e in res[0]["path"].events:
+            nd = e.node
+            if e.kind == "stmt" or (e.kind == "iter" and e.val and e.val[0] == "done"):
+                for x in [k for k, v in revs.items() if v is not None]:
+                    recognised = (
+                        (e.kind == "iter" and _flip_loop(nd) == x)
+                        or (isinstance(nd, ast.Expr) and isinstance(nd.value, ast.Call) and dotted(nd.value.func) == f"{x}.rows.reverse")
+                        or (isinstance(nd, ast.Assign) and dotted(nd.targets[0]) == f"{x}.rows" and norm(nd.value) in (f"{x}.rows[::-1]", f"list(reversed({x}.rows))"))
+                    )
+                    if not recognised and _mutates(nd, x):
+                        raise AnalysisError(f"to_scaffold: '{x}' is modified in place by '{norm(nd)[:60]}': form not understood")
+        for x, (n_rows, n_flip) in inplace.items():
+            if n_rows != n_flip:
+                raise AnalysisError(f"to_scaffold: '{x}' has its row list reversed {n_rows} time(s) but its fragments flipped {n_flip} time(s) in place: form not understood")
+            if revs.get(x) is not None:
+                revs[x] = revs[x] + n_rows
         k_ = rev_of(rv)
         if k_ is None:
             raise AnalysisError(f"to_scaffold: the returned value '{norm(rv)[:50]}' is not a scaffold built here, possibly reversed: form not understood")
